@@ -339,7 +339,14 @@ class Blank(ExcelType):
         return isinstance(value, (cls,) + cls.native_types) or value == ''
 
     def _sort_key(self, other):
-        return other.__Blank__()._sort_key(self)
+        if isinstance(other, Blank):
+            # Two blanks are equal.
+            return (self.sort_precedence, 0)
+        blank = other.__Blank__()
+        if blank is None:
+            # Dates compare as their serial number.
+            blank = Number(0)
+        return blank._sort_key(self)
 
     def __and__(self, other):
         if isinstance(other, self.native_types + (Blank,)):
